@@ -31,6 +31,7 @@ import (
 	"os"
 	"path/filepath"
 	"regexp"
+	"strconv"
 	"strings"
 )
 
@@ -66,6 +67,7 @@ type cfgFunc struct {
 	done    bool
 	text    string
 	extras  []string // function arguments added (externs, methods, values, float operations), in first-use order
+	extraT  map[string]string // their Coq types (a caller of the package hands them on)
 }
 
 type cfgCtx struct {
@@ -301,7 +303,7 @@ func (g *cfgGen) translate(fn *cfgFunc) {
 		fmt.Fprintf(&out, " {%s : Type}", strings.Join(imp, " "))
 	}
 	fmt.Fprintf(&out, "%s : %s :=\n%s.\n", sigText, rt, body)
-	fn.done, fn.text, fn.extras = true, out.String(), c.extras
+	fn.done, fn.text, fn.extras, fn.extraT = true, out.String(), c.extras, c.extraT
 	g.emitted = append(g.emitted, fn.text) // callees are finished first
 }
 
@@ -750,6 +752,10 @@ func (c *cfgCtx) isFloat(e ast.Expr) bool {
 		if t, ok := c.g.externs[f]; ok {
 			return strings.HasSuffix(strings.TrimSpace(t), "Flt")
 		}
+		if fn := c.pkgFunc(v.Fun); fn != nil {
+			rs := fn.decl.Type.Results
+			return rs != nil && len(rs.List) == 1 && src(rs.List[0].Type) == "float64"
+		}
 	}
 	return false
 }
@@ -768,8 +774,84 @@ func (c *cfgCtx) flt(e ast.Expr) string {
 		}
 		return "(" + c.extra("Flt_of_Z", "Z -> Flt") + " " + lit.Value + ")"
 	}
+	if n, ok := c.constInt(e); ok {
+		// an integer constant of the package in a float64 expression (exactly representable: checked small)
+		if len(n) > 9 {
+			c.lost(e, "large constant %s in a float64 expression", n)
+		}
+		return "(" + c.extra("Flt_of_Z", "Z -> Flt") + " " + n + ")"
+	}
 	c.lost(e, "operand %s of a float64 operation", src(e))
 	return ""
+}
+
+// constInt: the value of an integer constant expression over the constants of the package
+// (maxBalance, 2 * maxBalance), printed; only names that are not shadowed by a local.
+func (c *cfgCtx) constInt(e ast.Expr) (string, bool) {
+	var ev func(e ast.Expr, depth int) (int64, bool)
+	ev = func(e ast.Expr, depth int) (int64, bool) {
+		if depth > 8 {
+			return 0, false
+		}
+		switch v := e.(type) {
+		case *ast.ParenExpr:
+			return ev(v.X, depth)
+		case *ast.BasicLit:
+			if v.Kind == token.INT {
+				n, err := strconv.ParseInt(v.Value, 0, 64)
+				return n, err == nil
+			}
+		case *ast.Ident:
+			if v.Obj != nil && v.Obj.Kind != ast.Con {
+				return 0, false
+			}
+			if _, local := c.vtype[v.Name]; local {
+				return 0, false
+			}
+			for _, pf := range c.g.files {
+				if x, ok := pkgConsts(pf)[v.Name]; ok {
+					return ev(x, depth+1)
+				}
+			}
+		case *ast.BinaryExpr:
+			a, ok1 := ev(v.X, depth)
+			b, ok2 := ev(v.Y, depth)
+			if ok1 && ok2 {
+				switch v.Op {
+				case token.ADD:
+					return a + b, true
+				case token.SUB:
+					return a - b, true
+				case token.MUL:
+					if a > -1<<30 && a < 1<<30 && b > -1<<30 && b < 1<<30 {
+						return a * b, true
+					}
+				}
+			}
+		}
+		return 0, false
+	}
+	if _, isLit := e.(*ast.BasicLit); isLit {
+		return "", false
+	}
+	n, ok := ev(e, 0)
+	if !ok {
+		return "", false
+	}
+	return strconv.FormatInt(n, 10), true
+}
+
+// pkgFunc: a LISTED plain function of the package called by name (toFraction(β)).
+func (c *cfgCtx) pkgFunc(e ast.Expr) *cfgFunc {
+	id, ok := e.(*ast.Ident)
+	if !ok || (id.Obj != nil && id.Obj.Kind != ast.Fun) {
+		return nil
+	}
+	fn := c.g.listed[id.Name]
+	if fn == nil || fn.decl == nil || fn.decl.Recv != nil || fn == c.fn {
+		return nil
+	}
+	return fn
 }
 
 func (c *cfgCtx) isNil(e ast.Expr) bool {
@@ -799,6 +881,9 @@ func (c *cfgCtx) ex(e ast.Expr) string {
 		}
 		if v.Obj != nil && v.Obj.Kind == ast.Var {
 			return v.Name // a local bound by a let
+		}
+		if n, ok := c.constInt(v); ok {
+			return n // an integer constant of the package, inlined
 		}
 	case *ast.SelectorExpr:
 		if id, ok := v.X.(*ast.Ident); ok {
@@ -888,6 +973,12 @@ func (c *cfgCtx) binary(v *ast.BinaryExpr) string {
 			return "(" + c.extra("Flt_mul", "Flt -> Flt -> Flt") + " " + a + " " + b + ")"
 		case token.QUO:
 			return "(" + c.extra("Flt_div", "Flt -> Flt -> Flt") + " " + a + " " + b + ")"
+		case token.ADD:
+			return "(" + c.extra("Flt_add", "Flt -> Flt -> Flt") + " " + a + " " + b + ")"
+		case token.SUB:
+			return "(" + c.extra("Flt_sub", "Flt -> Flt -> Flt") + " " + a + " " + b + ")"
+		case token.EQL:
+			return "(" + c.extra("Flt_eqb", "Flt -> Flt -> bool") + " " + a + " " + b + ")"
 		}
 		c.lost(v, "float64 operation %s", v.Op)
 	}
@@ -1042,6 +1133,37 @@ func (c *cfgCtx) call(v *ast.CallExpr) string {
 			}
 		}
 		return "(" + name + " " + strings.Join(args, " ") + ")"
+	}
+	// a listed plain function of the package: its function arguments are handed on under the same names
+	if cal := c.pkgFunc(v.Fun); cal != nil {
+		c.g.translate(cal)
+		if !cal.done {
+			c.lost(v, "callee %s is lost", cal.spec)
+		}
+		if cal.monadic {
+			c.lost(v, "callee %s (panics)", cal.spec)
+		}
+		var args []string
+		for _, x := range cal.extras {
+			args = append(args, c.extra(x, cal.extraT[x]))
+		}
+		var ptypes []ast.Expr
+		for _, p := range cal.decl.Type.Params.List {
+			for range p.Names {
+				ptypes = append(ptypes, p.Type)
+			}
+		}
+		if len(ptypes) != len(v.Args) {
+			c.lost(v, "call %s (variadic or unnamed parameters)", src(v))
+		}
+		for i, a := range v.Args {
+			if src(ptypes[i]) == "float64" {
+				args = append(args, c.flt(a))
+			} else {
+				args = append(args, c.ex(a))
+			}
+		}
+		return "(" + cfgName(cal.decl.Name.Name) + " " + strings.Join(args, " ") + ")"
 	}
 	// a listed method of the package on a struct-valued variable: x.m(args)
 	if sel, ok := v.Fun.(*ast.SelectorExpr); ok {
